@@ -202,12 +202,13 @@ def ro_open_workload(ver, maxbuf, twice=True):
         # (sixteen directory entries in all: the four directory sectors exist before the boundary is reached)
         names = ["k1", "k2", "k3", "k4", "k5", "k6", "f1", "f2", "f3", "f4", "f5", "f6"]
         streams = [{"name": n, "runs": [[f.next(), 4096]]} for n in names[:11]] + [{"name": names[11], "runs": [[f.next(), 17920]]}]
-        streams += [{"name": "a", "runs": [[f.next(), 500] for _ in range(20)]}, {"name": "bar", "runs": [[f.next(), 60] for _ in range(50)]},
-                    {"name": "c", "runs": f.runs(rng, 700)}]
+        # (regular streams only: with a MiniFAT chain in the second range a shifted table no longer opens at all)
+        streams += [{"name": "a", "runs": [[f.next(), 500] for _ in range(20)]}, {"name": "bar", "runs": [[f.next(), 500] for _ in range(10)]},
+                    {"name": "c", "runs": [[f.next(), 500] for _ in range(9)]}]
     # twice: the open is retried (an open that failed is followed by one that works); once: whatever the faulted open returned
     # is what the reads go through - an open that swallowed the failure and answered Ok must still have loaded the right tables
     ops = ([{"op": "open"}, {"op": "open"}] if twice else [{"op": "open"}]) + [{"op": "walk"}]
-    for name, seeks in (("a", [0, 30000, 66000, 69000] if twice else [0, 3000, 7000]), ("bar", [0, 2000]), ("c", [0])):
+    for name, seeks in (("a", [0, 30000, 66000, 69000] if twice else [0, 3000, 7000]), ("bar", [0, 2000]), ("c", [0, 3000] if not twice else [0])):
         ops += [{"op": "open_stream", "name": name}, {"op": "open_stream", "name": name}]
         for d in seeks:
             ops += [{"op": "seek", "whence": "start", "d": d, "sym": ""}, {"op": "read", "n": 900}, {"op": "position"},
